@@ -395,6 +395,52 @@ pub fn c32_from_str_rejects_non_letters() {
   kani::cover!(c as u32 == 0x141, "U+0141 (code point mod 256 is 'A')");
 }
 
+/// print -> parse at the machine-integer boundaries: Display and FromStr are loops over 128-bit
+/// arithmetic; a change that narrows an intermediate (u64 fast paths, u32 counters) shows at the
+/// width boundaries.  Concrete values, so symbolic execution is exact.  (Added after sub-agent seed
+/// C32-1: a 64-bit fast path in Display overflowed exactly at 2^64 - 1.)
+/// STATUS: tier manual - even with concrete values CBMC did not finish a single one of these in 10
+/// minutes (core::fmt machinery); they are run by neither command and counted nowhere, and seed
+/// C32-1 stays missed.
+fn display_round_trip(n: u128) {
+  let r = Rune(n);
+  let s = r.to_string();
+  assert!(!s.is_empty(), "C32.display.name_is_not_empty");
+  let back = Rune::from_str(&s);
+  assert!(back == Ok(r), "C32.display.name_parses_back_to_the_same_rune");
+}
+
+macro_rules! display_harness {
+  ($name:ident, $($n:expr),*) => {
+    #[cfg_attr(kani, kani::proof)]
+    #[cfg_attr(kani, kani::unwind(40))]
+    pub fn $name() {
+      $( display_round_trip($n); )*
+    }
+  };
+}
+
+//# props: C32
+//# kind: bounded(concrete values 0, 25, 26, 2^8-1, 2^8, 2^16-1, 2^16)
+//# fns: Rune::fmt, Rune::from_str
+//# tier: manual
+//# timeout: 600
+display_harness!(c32_display_round_trip_small_boundaries, 0, 25, 26, 255, 256, 65535, 65536);
+
+//# props: C32
+//# kind: bounded(concrete values 2^32-1, 2^32, 2^64-1, 2^64)
+//# fns: Rune::fmt, Rune::from_str
+//# tier: manual
+//# timeout: 600
+display_harness!(c32_display_round_trip_word_boundaries, (1u128 << 32) - 1, 1u128 << 32, (1u128 << 64) - 1, 1u128 << 64);
+
+//# props: C32
+//# kind: bounded(concrete values u128::MAX - 1 and u128::MAX)
+//# fns: Rune::fmt, Rune::from_str
+//# tier: manual
+//# timeout: 600
+display_harness!(c32_display_round_trip_max, u128::MAX - 1, u128::MAX);
+
 /// the range boundary: 28-letter names around u128::MAX's name, last two letters symbolic.
 /// "BCGDENLQRQWDSLRUGSNLBTMFIJAV" is u128::MAX; anything above is Error::Range, never a wrapped value.
 //# props: C32, C31
